@@ -84,10 +84,40 @@ Record mon := {
   mpk : Z; mph : Z;             (* callback pending before this operation (kind, height) *)
   mseen : list Z;               (* unanswered requests whose own start height was already dequeued once *)
   mreqs : list req;             (* accepted requests, newest first *)
-  mans : list Z                 (* ids answered so far *)
+  mans : list Z;                (* ids answered so far *)
+  mphs : Z;                     (* phase of the batch goroutine before this operation (phase_of) *)
+  marm : list (Z * nat)         (* requests the running batch must answer (start height at or below the tip when
+                                   the batch started), each with the scanner steps it may still take *)
 }.
 
 Definition mem_z (x : Z) (l : list Z) : bool := existsb (Z.eqb x) l.
+
+(* pending-callback code of a program counter, as the harness observes it *)
+Definition code_of (p : pcT) : Z :=
+  match p with
+  | NotStarted => 7 | Idle => 0 | Best0 _ | Best1 _ => 1 | Hash _ _ => 2 | Filt _ _ => 3 | Blk _ _ _ => 4
+  | Exited => 6
+  end.
+
+(* phase of the batch goroutine: 1 = the first BestSnapshot of a scan is pending (the batch manager has just
+   (re)started a batch), 2 = the BestSnapshot after the scanned range is pending, 3 = inside the height loop,
+   0 = no batch (not started, waiting for requests, exited).  Both BestSnapshot calls are observed with code 1;
+   [next_phase] tells them apart from the phase before the operation (correct on the model: C10_phase_correct). *)
+Definition phase_of (p : pcT) : Z :=
+  match p with Best0 _ => 1 | Best1 _ => 2 | Hash _ _ | Filt _ _ | Blk _ _ _ => 3 | _ => 0 end.
+
+Definition next_phase (ph : Z) (o : op) (k : Z) : Z :=
+  if (k =? 2) || (k =? 3) || (k =? 4) then 3
+  else if k =? 1 then
+    match o with
+    | Step true _ => 1
+    | Step false _ => if ph =? 2 then 1 else 2
+    | _ => if (ph =? 1) || (ph =? 2) then ph else 1
+    end
+  else 0.
+
+(* scanner steps one batch can take on a chain of n blocks (ProofsL.batch_bound) *)
+Definition batch_steps (n : nat) : nat := (4 * n + 2)%nat.
 
 (* some tip between lo and hi (inclusive, at most n+1 candidates) justifies r *)
 Fixpoint fate_between (ch : list block) (q : req) (r : result) (lo : Z) (n : nat) : bool :=
@@ -122,7 +152,7 @@ Fixpoint results_ok (ch : list block) (m : mon) (o : op) (ds : list (Z * result)
   | d :: rest =>
     if result_ok ch m o d
     then results_ok ch {| mtip := mtip m; mstopped := mstopped m; mtipstop := mtipstop m; mfs := mfs m; mpk := mpk m; mph := mph m; mseen := mseen m;
-                          mreqs := mreqs m; mans := fst d :: mans m |} o rest
+                          mreqs := mreqs m; mans := fst d :: mans m; mphs := mphs m; marm := marm m |} o rest
     else None
   end.
 
@@ -133,18 +163,18 @@ Definition mon_op (ch : list block) (m : mon) (o : op) (ob : obs) : option mon :
     if Bool.eqb acc (oacc ob) then
       Some (if acc then {| mtip := mtip m; mstopped := mstopped m; mtipstop := mtipstop m; mfs := mfs m; mpk := mpk m; mph := mph m; mseen := mseen m;
                            mreqs := {| rid := Z.of_nat (length (mreqs m)); rop := p; birth := b |} :: mreqs m;
-                           mans := mans m |} else m)
+                           mans := mans m; mphs := mphs m; marm := marm m |} else m)
     else None
   | NewBlock =>
     Some (if mtip m + 1 <? Z.of_nat (length ch)
-          then {| mtip := mtip m + 1; mstopped := mstopped m; mtipstop := mtipstop m; mfs := mfs m; mpk := mpk m; mph := mph m; mseen := mseen m; mreqs := mreqs m; mans := mans m |}
+          then {| mtip := mtip m + 1; mstopped := mstopped m; mtipstop := mtipstop m; mfs := mfs m; mpk := mpk m; mph := mph m; mseen := mseen m; mreqs := mreqs m; mans := mans m; mphs := mphs m; marm := marm m |}
           else m)
   | Stop =>
     Some (if mstopped m then m
-          else {| mtip := mtip m; mstopped := true; mtipstop := mtip m; mfs := false; mpk := mpk m; mph := mph m; mseen := mseen m; mreqs := mreqs m; mans := mans m |})
+          else {| mtip := mtip m; mstopped := true; mtipstop := mtip m; mfs := false; mpk := mpk m; mph := mph m; mseen := mseen m; mreqs := mreqs m; mans := mans m; mphs := mphs m; marm := marm m |})
   | Step true _ =>
     Some (if mstopped m
-          then {| mtip := mtip m; mstopped := true; mtipstop := mtipstop m; mfs := true; mpk := mpk m; mph := mph m; mseen := mseen m; mreqs := mreqs m; mans := mans m |}
+          then {| mtip := mtip m; mstopped := true; mtipstop := mtipstop m; mfs := true; mpk := mpk m; mph := mph m; mseen := mseen m; mreqs := mreqs m; mans := mans m; mphs := mphs m; marm := marm m |}
           else m)
   | _ => Some m
   end.
@@ -175,14 +205,35 @@ Fixpoint first_bad (ch : list block) (m : mon) (i : Z) (tr : list (op * obs)) : 
                          | _ => [] end in
           if existsb (fun x => mem_z x (mseen m2) && negb (mem_z x (mans m2))) joining
           then Some i                    (* passed over by the batch that dequeued its height *)
-          else first_bad ch {| mtip := mtip m2; mstopped := mstopped m2; mtipstop := mtipstop m2; mfs := mfs m2;
-                               mpk := opc ob; mph := oh ob; mseen := joining ++ mseen m2;
-                               mreqs := mreqs m2; mans := mans m2 |} (i + 1) rest
+          else
+            (* progress (C10_next_batch_covers, C10_covered_answered_when_batch_completes, C10_work_left_measure):
+               a batch that starts covers every waiting request whose start height is at or below the tip; a
+               covered request is answered when that batch completes without a failing callback, and after at
+               most batch_steps successful scanner steps *)
+            let ph' := next_phase (mphs m) o (opc ob) in
+            let stepping := (match o with Step _ _ => true | _ => false end) && negb (mphs m =? 0) in
+            let ended := stepping && ((ph' =? 1) || (opc ob =? 0)) in
+            let entered := (ph' =? 1) && (ended || (mphs m =? 0)) in
+            let open := filter (fun a => negb (mem_z (fst a) (mans m2))) (marm m) in
+            if negb (mstopped m2) && ended && negb (is_fail o) && negb (match open with [] => true | _ => false end)
+            then Some i                  (* a request covered by the batch survived its completion *)
+            else
+              let ticked := if stepping && negb (is_fail o) then map (fun a => (fst a, pred (snd a))) open else open in
+              if negb (mstopped m2) && existsb (fun a => Nat.eqb (snd a) 0) ticked
+              then Some i                (* covered request not answered within the step bound of one batch *)
+              else
+                let arm := if entered
+                           then map (fun q => (rid q, batch_steps (length ch)))
+                                    (filter (fun q => (birth q <=? mtip m2) && negb (mem_z (rid q) (mans m2))) (mreqs m2))
+                           else if ended then [] else ticked in
+                first_bad ch {| mtip := mtip m2; mstopped := mstopped m2; mtipstop := mtipstop m2; mfs := mfs m2;
+                                mpk := opc ob; mph := oh ob; mseen := joining ++ mseen m2;
+                                mreqs := mreqs m2; mans := mans m2; mphs := ph'; marm := arm |} (i + 1) rest
       end
     end
   end.
 
-Definition mon0 (tip0 : Z) : mon := {| mtip := tip0; mstopped := false; mtipstop := tip0; mfs := false; mpk := 7; mph := 0; mseen := []; mreqs := []; mans := [] |}.
+Definition mon0 (tip0 : Z) : mon := {| mtip := tip0; mstopped := false; mtipstop := tip0; mfs := false; mpk := 7; mph := 0; mseen := []; mreqs := []; mans := []; mphs := 0; marm := [] |}.
 
 Definition holds (ch : list block) (tip0 : Z) (tr : list (op * obs)) : bool :=
   match first_bad ch (mon0 tip0) 0 tr with None => true | Some _ => false end.
